@@ -63,8 +63,8 @@ impl Glyph {
             writer.write_event(char_to_event(*codepoint)).map_err(GlifWriteError::Buffer)?;
         }
 
-        // Skip serializing advance if both values are zero, infinite, subnormal, or NaN.
-        if self.width.is_normal() || self.height.is_normal() {
+        // Skip serializing advance if both values are zero.
+        if self.width != 0. || self.height != 0. {
             let mut start = BytesStart::new("advance");
             if self.height != 0. {
                 start.push_attribute(("height", self.height.to_string().as_str()));
